@@ -244,7 +244,8 @@ def write_replay(prop, tier, seed, ev, verdict, direction):
     rec = {"property": prop, "tier": tier, "seed": seed, "direction": direction, "program": src,
            "input": plain(ev.get("inp")), "input_spec": ev.get("inp"), "binds": ev.get("binds"),
            "observed": ev.get("out"), "verdict": verdict, "fam": ev.get("fam"),
-           "case": {"id": 1, "fam": ev.get("fam"), "src": src, "inp": ev.get("inp"), "binds": ev.get("binds", [])}}
+           "case": ({"id": 1, "fam": ev.get("fam"), "ast": ev["want_ast"], "inp": ev.get("inp"), "binds": ev.get("binds", [])} if "want_ast" in ev
+                    else {"id": 1, "fam": ev.get("fam"), "src": src, "inp": ev.get("inp"), "binds": ev.get("binds", [])})}
     if "exp" in ev:
         rec["expected_default"] = ev["exp"]
     with open(p, "w") as f:
